@@ -12,7 +12,7 @@ def pool_cases(tier, seed, hosts, per_host):
     out = []
     for h in hosts:
         mod = importlib.import_module('adsan.checks.' + h)
-        cs = mod.cases('quick', seed)
+        cs = mod.cases(tier, seed)
         if len(cs) > per_host:
             step = len(cs) / float(per_host)
             cs = [cs[int(i * step)] for i in range(per_host)]
